@@ -324,6 +324,13 @@ int read_pax_header(sqfs_istream_t *fp, sqfs_u64 entsize,
 			}
 
 			*set_by_pax |= field->flag;
+
+			/* the sparse map handler replaces the list that the
+			   offset/numbytes records below append to */
+			if (field->type == PAX_TYPE_CONST_STRING &&
+			    field->cb.cstr == pax_sparse_map) {
+				sparse_last = NULL;
+			}
 		} else if (!strcmp(key, "GNU.sparse.offset")) {
 			if (parse_uint(value, -1, &diff, 0, 0, &offset))
 				goto fail_malformed;
